@@ -34,12 +34,26 @@ namespace drv {
       if (r.global()) bad |= 4u;
       return bad;
    }
-   unsigned r_class(L& lx) { impl::Region& g = root(); impl::Region* p = g.make_subregion(); const ipr::Class& u = *lx.make_class(*p); return udt_clauses(u, *p); }
-   unsigned r_union(L& lx) { impl::Region& g = root(); impl::Region* p = g.make_subregion(); const ipr::Union& u = *lx.make_union(*p); return udt_clauses(u, *p); }
-   unsigned r_namespace(L& lx) { impl::Region& g = root(); impl::Region* p = g.make_subregion(); const ipr::Namespace& u = *lx.make_namespace(*p); return udt_clauses(u, *p); }
-   unsigned r_closure(L& lx) { impl::Region& g = root(); impl::Region* p = g.make_subregion(); const ipr::Closure& u = *lx.make_closure(*p); return udt_clauses(u, *p); }
-   unsigned r_enum(L& lx, Enum::Kind k) { impl::Region& g = root(); impl::Region* p = g.make_subregion(); const ipr::Enum& u = *lx.make_enum(*p, k); return udt_clauses(u, *p); }
-   unsigned r_block(L& lx, Optional<Type> t) { impl::Region& g = root(); impl::Region* p = g.make_subregion(); const ipr::Block& b = *lx.make_block(*p, t); return udt_clauses(b, *p); }
+   // the region a construct is created in: a subregion, a mapping's parameter region, a lambda's parameter region, a class body,
+   // a block, a namespace body (chosen by the harness) -- all made by the library from one root
+   inline const ipr::Region& some_region(L& lx, impl::Region& g, int kind)
+   {
+      impl::Region* p = g.make_subregion();
+      switch (kind) {
+      case 1: return static_cast<const ipr::Mapping&>(*lx.make_mapping(*p, Mapping_level{ 1 })).parameters().region();
+      case 2: return static_cast<const ipr::Lambda&>(*lx.make_lambda(*p, Mapping_level{ 1 })).parameters().region();
+      case 3: return static_cast<const ipr::Class&>(*lx.make_class(*p)).region();
+      case 4: return static_cast<const ipr::Block&>(*lx.make_block(*p)).region();
+      case 5: return static_cast<const ipr::Namespace&>(*lx.make_namespace(*p)).region();
+      default: return *p;
+      }
+   }
+   unsigned r_class(L& lx, int kind) { impl::Region& g = root(); const ipr::Region& p = some_region(lx, g, kind); const ipr::Class& u = *lx.make_class(p); return udt_clauses(u, p); }
+   unsigned r_union(L& lx, int kind) { impl::Region& g = root(); const ipr::Region& p = some_region(lx, g, kind); const ipr::Union& u = *lx.make_union(p); return udt_clauses(u, p); }
+   unsigned r_namespace(L& lx, int kind) { impl::Region& g = root(); const ipr::Region& p = some_region(lx, g, kind); const ipr::Namespace& u = *lx.make_namespace(p); return udt_clauses(u, p); }
+   unsigned r_closure(L& lx, int kind) { impl::Region& g = root(); const ipr::Region& p = some_region(lx, g, kind); const ipr::Closure& u = *lx.make_closure(p); return udt_clauses(u, p); }
+   unsigned r_enum(L& lx, Enum::Kind k, int kind) { impl::Region& g = root(); const ipr::Region& p = some_region(lx, g, kind); const ipr::Enum& u = *lx.make_enum(p, k); return udt_clauses(u, p); }
+   unsigned r_block(L& lx, Optional<Type> t, int kind) { impl::Region& g = root(); const ipr::Region& p = some_region(lx, g, kind); const ipr::Block& b = *lx.make_block(p, t); return udt_clauses(b, p); }
    unsigned r_handler(L& lx, const Name& n, const Type& t)
    {
       impl::Region& g = root(); impl::Region* p = g.make_subregion();
